@@ -25,7 +25,9 @@ import types
 
 from hypothesis import strategies as st
 
-MODULES = ["vgen", "vgen.sub.deep", "LOCAL"]
+# importable modules holding generated classes (short names a path test may mistake for part of
+# another name: "main" and "a" are substrings of "__main__"), and the local table
+MODULES = ["vgen", "vgen.sub.deep", "LOCAL", "main", "a", "vgen"]
 ENUM_VALUES = [0, 1, -1, 7, "a", "", "é", None, 1.5, 2.25, "x y"]
 
 EXTRAS = ["__iter__", "__len__", "__bool__", "__getitem__", "__call__", "__eq__", "__contains__", "property", "classattr"]
@@ -44,14 +46,14 @@ EXTRA_SOURCE = {
 IDENT_POOL = ["a", "b", "c", "x", "y", "z", "k1", "k2", "foo", "bar", "id", "n0", "v", "w", "q9", "abc", "name", "val", "m", "t7"]
 idents = st.sampled_from(IDENT_POOL)
 prims = st.one_of(
-    st.none(), st.booleans(), st.integers(-2 ** 60, 2 ** 60), st.sampled_from([0, 1, -1, 0.0, -0.0, 1.5, 1e308, "", "é"]),
+    st.none(), st.booleans(), st.integers(-2 ** 60, 2 ** 60), st.sampled_from([0, 1, -1, 0.0, -0.0, 1.5, 1e308, "", "é", float("inf"), float("-inf")]),
     st.floats(allow_nan=False, allow_infinity=False), st.text("abcxyzé €", max_size=4).map(lambda s: "v:" + s))
 plain_json = st.recursive(prims, lambda c: st.one_of(st.lists(c, max_size=3), st.dictionaries(idents, c, max_size=3)), max_leaves=5)
 SPECIAL_DECIMALS = ["-0", "1E+400", "sNaN", "0.10", "NaN", "-Infinity", "Infinity", "-NaN123", "1E-400", "0E+3"]
 
 
 def ensure_modules():
-    for name in ("vgen", "vgen.sub", "vgen.sub.deep"):
+    for name in ("vgen", "vgen.sub", "vgen.sub.deep", "main", "a"):
         if name not in sys.modules:
             sys.modules[name] = types.ModuleType(name)
     sys.modules["vgen"].sub = sys.modules["vgen.sub"]
@@ -140,7 +142,7 @@ def enum_tables(draw):
         for v in vals:
             if not any(v == u for u in uniq):
                 uniq.append(v)
-        out.append({"module": draw(st.sampled_from(["vgen", "vgen.sub.deep", "LOCAL"])), "values": uniq})
+        out.append({"module": draw(st.sampled_from(["vgen", "vgen.sub.deep", "LOCAL", "main", "a"])), "values": uniq})
     return out
 
 
